@@ -27,7 +27,7 @@ impl Ev {
 }
 
 #[derive(Default)]
-struct Registry { live: BTreeSet<u64>, next: u64, cbs: u64, pan: Option<u64>, log: Vec<Ev>, errors: Vec<String>, quiet: bool, fired: bool }
+struct Registry { live: BTreeSet<u64>, handed: BTreeSet<u64>, next: u64, cbs: u64, pan: Option<u64>, log: Vec<Ev>, errors: Vec<String>, quiet: bool, fired: bool }
 thread_local! { static REG: RefCell<Registry> = RefCell::new(Registry::default()); }
 
 fn reg<R>(f: impl FnOnce(&mut Registry) -> R) -> R { alloc::pause(|| REG.with(|r| f(&mut r.borrow_mut()))) }
@@ -50,6 +50,7 @@ impl Drop for El {
         if reg(|r| r.quiet) { return; }
         let fire = tick();
         reg(|r| {
+            if r.handed.contains(&self.id) { r.errors.push(format!("the vector dropped element {} although it had been handed back to the caller (it will be dropped twice)", self.id)); }
             if !r.live.remove(&self.id) { r.errors.push(format!("drop of an unknown or already dropped element (id {:#x}, val {:#x})", self.id, self.val)); }
             r.log.push(Ev::Drop(self.id));
             if fire { r.log.push(Ev::Panic); }
@@ -57,8 +58,9 @@ impl Drop for El {
         if fire && !std::thread::panicking() { panic!("injected panic in drop"); }
     }
 }
-struct It { vals: [u64; 12], n: usize, pos: usize, hint: usize }
-fn mk_it(v: &[u64], hint: usize) -> It { let mut a = [0u64; 12]; a[..v.len()].copy_from_slice(v); It { vals: a, n: v.len(), pos: 0, hint } }
+struct It { vals: [u64; 12], n: usize, pos: usize, hint: usize, upper: Option<usize> }
+/// the upper bound of the size hint is deliberately loose for some iterators (as for filter / flat_map): the vectors must not rely on it
+fn mk_it(v: &[u64], hint: usize) -> It { let mut a = [0u64; 12]; a[..v.len()].copy_from_slice(v); let upper = match (v.len() + hint) % 3 { 0 => None, 1 => Some(v.len().max(hint)), _ => Some(v.len().max(hint) + 9) }; It { vals: a, n: v.len(), pos: 0, hint, upper } }
 impl Iterator for It {
     type Item = El;
     fn next(&mut self) -> Option<El> {
@@ -69,7 +71,7 @@ impl Iterator for It {
         reg(|r| r.log.push(Ev::Next(e.id)));
         Some(e)
     }
-    fn size_hint(&self) -> (usize, Option<usize>) { (self.hint, None) }
+    fn size_hint(&self) -> (usize, Option<usize>) { (self.hint, self.upper) }
 }
 
 #[derive(Clone, Debug)]
@@ -177,7 +179,7 @@ impl Case {
                 let V::In(v) = self.pool[*vi].as_mut().unwrap() else { unreachable!() };
                 match guarded!(v.try_push(e)).unwrap() {
                     Ok(()) => { self.shadow[*vi].as_mut().unwrap().push(*x); XOut::Unit }
-                    Err(back) => { if back.id != id || back.val != *x { self.viol.push("try_push handed back another value".into()); } if self.shadow[*vi].as_ref().unwrap().len() < CAP { self.viol.push("try_push rejected below capacity".into()); } self.handed.push(back); XOut::Rejected(id, true) }
+                    Err(back) => { if back.id != id || back.val != *x { self.viol.push("try_push handed back another value".into()); } if self.shadow[*vi].as_ref().unwrap().len() < CAP { self.viol.push("try_push rejected below capacity".into()); } { reg(|r| { r.handed.insert(back.id); }); self.handed.push(back); } XOut::Rejected(id, true) }
                 }
             }
             Pop(vi) => {
@@ -185,14 +187,14 @@ impl Case {
                 let r = guarded!(match v { V::In(v) => v.pop(), V::Th(v) => v.pop() }).unwrap();
                 let o = self.shadow[*vi].as_mut().unwrap().pop();
                 if r.as_ref().map(|e| e.val) != o { self.viol.push(format!("pop returned {:?}, Vec {:?}", r.as_ref().map(|e| e.val), o)); }
-                match r { Some(e) => { let id = e.id; self.handed.push(e); XOut::Item(id) } None => XOut::None_ }
+                match r { Some(e) => { let id = e.id; reg(|r| { r.handed.insert(id); }); self.handed.push(e); XOut::Item(id) } None => XOut::None_ }
             }
             PopIf(vi, want) => {
                 if thin { return XOut::Skip; }
                 let V::In(v) = self.pool[*vi].as_mut().unwrap() else { unreachable!() };
                 let r = guarded!(v.pop_if(|e| { if tick() { reg(|r| r.log.push(Ev::Panic)); panic!("injected panic in predicate"); } reg(|r| r.log.push(Ev::Pred(e.id, *want))); *want }));
                 match r {
-                    Ok(Some(e)) => { let o = self.shadow[*vi].as_mut().unwrap().pop(); if Some(e.val) != o { self.viol.push("pop_if returned another value".into()); } let id = e.id; self.handed.push(e); XOut::Item(id) }
+                    Ok(Some(e)) => { let o = self.shadow[*vi].as_mut().unwrap().pop(); if Some(e.val) != o { self.viol.push("pop_if returned another value".into()); } let id = e.id; reg(|r| { r.handed.insert(id); }); self.handed.push(e); XOut::Item(id) }
                     Ok(None) => XOut::None_,
                     Err(_) => XOut::Panicked,
                 }
@@ -221,7 +223,7 @@ impl Case {
                         // hand the value back: InsertError exposes it through its public field
                         let back: El = er.value;
                         if back.id != id { self.viol.push("try_insert handed back another value".into()); }
-                        self.handed.push(back);
+                        { reg(|r| { r.handed.insert(back.id); }); self.handed.push(back); }
                         XOut::Rejected(id, full)
                     }
                 }
@@ -232,7 +234,7 @@ impl Case {
                 let v = self.pool[*vi].as_mut().unwrap();
                 let r = guarded!(match (v, swap) { (V::In(v), false) => v.remove(*i), (V::In(v), true) => v.swap_remove(*i), (V::Th(v), false) => v.remove(*i), (V::Th(v), true) => v.swap_remove(*i) });
                 match r {
-                    Ok(e) => { if *i >= len { self.viol.push("remove out of bounds did not panic".into()); } else { let o = if swap { self.shadow[*vi].as_mut().unwrap().swap_remove(*i) } else { self.shadow[*vi].as_mut().unwrap().remove(*i) }; if o != e.val { self.viol.push("remove returned another value".into()); } } let id = e.id; self.handed.push(e); XOut::Item(id) }
+                    Ok(e) => { if *i >= len { self.viol.push("remove out of bounds did not panic".into()); } else { let o = if swap { self.shadow[*vi].as_mut().unwrap().swap_remove(*i) } else { self.shadow[*vi].as_mut().unwrap().remove(*i) }; if o != e.val { self.viol.push("remove returned another value".into()); } } let id = e.id; reg(|r| { r.handed.insert(id); }); self.handed.push(e); XOut::Item(id) }
                     Err(_) => { if *i < len { self.viol.push("remove panicked in bounds".into()); } XOut::Panicked }
                 }
             }
@@ -331,6 +333,8 @@ impl Case {
                 });
                 let ids: Vec<u64> = got.iter().map(|e| e.id).collect();
                 let vals: Vec<u64> = got.iter().map(|e| e.val).collect();
+                reg(|r| { for e in got.iter() { r.handed.insert(e.id); } });
+                reg(|r| { for e in got.iter() { r.handed.insert(e.id); } });
                 self.handed.extend(got);
                 match (r, std_r) {
                     (Ok(()), Some((a, b))) => {
@@ -358,6 +362,8 @@ impl Case {
                 let f = (*front).min(sh.len()); let bk = (*back).min(sh.len() - f);
                 let mut exp: Vec<u64> = sh[..f].to_vec(); exp.extend(sh[sh.len() - bk..].iter().rev());
                 if exp != vals { self.viol.push(format!("into_iter yielded {:?}, Vec {:?}", vals, exp)); }
+                reg(|r| { for e in got.iter() { r.handed.insert(e.id); } });
+                reg(|r| { for e in got.iter() { r.handed.insert(e.id); } });
                 self.handed.extend(got);
                 if r.is_err() { XOut::Panicked } else { XOut::Items(ids) }
             }
@@ -391,7 +397,10 @@ impl Case {
     fn observe(&mut self) -> (String, String) {
         let mut pool = String::from("[");
         let mut first = true;
-        let live = reg(|r| r.live.clone());
+        let (live, handed_ids) = reg(|r| (r.live.clone(), r.handed.clone()));
+        // an element handed back to the caller is the caller's: the vector must not have dropped it as well
+        let dead_handed: Vec<u64> = self.handed.iter().filter(|e| !live.contains(&e.id)).map(|e| e.id).collect();
+        if !dead_handed.is_empty() { self.viol.push(format!("elements {:?} were handed back to the caller AND dropped by the vector (dropped twice)", dead_handed)); }
         for (i, v) in self.pool.iter().enumerate() {
             let Some(v) = v else { continue };
             let sl = v.slice();
@@ -399,6 +408,7 @@ impl Case {
             let vals: Vec<u64> = sl.iter().map(|e| e.val).collect();
             // C14/C15: the length covers only initialised, live, distinct elements
             for e in sl { if !live.contains(&e.id) { self.viol.push(format!("v{} holds a dead or garbage element (id {:#x})", i, e.id)); } }
+            for e in sl { if handed_ids.contains(&e.id) { self.viol.push(format!("v{} still holds element {} that was already handed back to the caller (it is owned twice)", i, e.id)); } }
             let mut d = ids.clone(); d.sort(); d.dedup(); if d.len() != ids.len() { self.viol.push(format!("v{} holds an element twice", i)); }
             if sl.len() > v.cap() { self.viol.push(format!("v{} len {} > capacity {}", i, sl.len(), v.cap())); }
             if !self.inj() { if Some(&vals) != self.shadow[i].as_ref() { self.viol.push(format!("v{} holds {:?}, Vec holds {:?}", i, vals, self.shadow[i])); } }
